@@ -180,6 +180,23 @@ def let_names(t, key):
             if v is None or v.type != 'let_expression': return []
             return [bb.child_by_field_name('attrpath').text.decode() for c in v.children if c.type == 'binding_set' for bb in c.children if bb.type == 'binding']
     return None
+# twelfth round: every kind of value body under the let (empty containers and scalars have render shortcuts of their own), with the let already there or created by the edit
+SCOPED_BODIES = ['[ ]', '{ }', '[ 1 ]', '1', '"s"', 'f y', 'p.q', './p.nix', "''s''", '(1)', 'rec { }', 'null']
+for body_ in SCOPED_BODIES:
+    for base, scripts in [('{ x = %s; w = 1; }\n' % body_, (['add'], ['add', 'add2'])), ('{\n  x = %s;\n  w = 1;\n}\n' % body_, (['add'],)),
+                          ('{ x = let a = 1; in %s; }\n' % body_, ([], ['add'], ['add', 'del'])), ('{\n  x =\n    let\n      a = 1;\n    in\n    %s;\n}\n' % body_, ([], ['add']))]:
+        for script in scripts:
+            count('scoped-value-bodies')
+            try:
+                d = parse(base); sc = d['x'].scope
+                for st_ in script:
+                    if st_ == 'add': sc['w'] = 5
+                    elif st_ == 'add2': sc['u'] = 6
+                    else: del sc['a']
+                want = names_of(sc); t = d.rebuild(); shown = let_names(t, 'x')
+                if shown is None: bad('text after a scope edit of a binding value does not parse', doc=base, ops=script, text=t)
+                elif sorted(shown) != sorted(want): bad('the let of a binding value shows %r, its scope mapping reports %r' % (shown, want), doc=base, ops=script, text=t)
+            except Exception as ex: bad('scope mapping of a binding value raises %s: %s' % (type(ex).__name__, ex), doc=base, ops=script)
 for base in ['{\n  x = let a = 1; in { y = a; } /* note */;\n  z = 2;\n}\n', '{\n  x = let a = 1; in { y = a; }; # eol\n  z = 2;\n}\n', '{\n  x = let a = 1; b = 2; in [ a b ];\n}\n', '{\n  x = (let a = 1; in { y = a; }) /* p */;\n}\n']:
     for render_first in (False, True):
         for script in (['add'], ['del'], ['add', 'del'], ['add', 'add2', 'del']):
